@@ -225,8 +225,8 @@ def generate(src):
                 return k(st, PyDict(a))
             if any(x is None for x in e.keys): raise Unsupported('dict display with ** unpacking: ' + ast.unparse(e))
             names = [ast.unparse(x) for x in e.keys]
-            if any(n not in ('Context', 'TaskiqState') for n in names): raise Unsupported("dict display with keys " + ", ".join(names))
-            keys = [{'Context': CONTEXT_KEY, 'TaskiqState': STATE_KEY}[n] for n in names]
+            if any(not re.match(r"^[A-Z]\w*$", n) for n in names): raise Unsupported("dict display with keys " + ", ".join(names))
+            keys = [{'Context': CONTEXT_KEY, 'TaskiqState': STATE_KEY}.get(n, STR.get('<dependency key ' + n + '>')) for n in names]          # further class-keyed entries (e.g. TaskiqMessage) are allowed: other keys of the same private dict
             return self.ev_list(e.values, st, lambda s, vs: k(s, DictDisplay(list(zip(keys, vs)))), K)
         def find_handler(self, name, recv=None):
             if name == 'target': return h_target
